@@ -658,6 +658,10 @@ func lemmaESDTTransferDelivered(e *esdtTransfer, snd, dst vmcommon.UserAccountHa
 //@   ensures[C08] err == nil && !readFailed && !senderSide && len(old(St)[rcv][Knft(tok, dMNonce(a3))]) != 0 && dHasMeta(old(St)[rcv][Knft(tok, dMNonce(a3))]) ==> dMHash(old(St)[rcv][Knft(tok, dMNonce(a3))]) == dMHash(a3)
 //@   ensures[C10,C01] err == nil && senderSide && shardOf(a3) != selfShard ==> has(out.OutputAccounts, a3) && wfunc(seq(out.OutputAccounts[a3].OutputTransfers[0].Data)) == "ESDTNFTTransfer" && wcount(seq(out.OutputAccounts[a3].OutputTransfers[0].Data)) == len(vmInput.Arguments) && warg(seq(out.OutputAccounts[a3].OutputTransfers[0].Data), 0) == tok && warg(seq(out.OutputAccounts[a3].OutputTransfers[0].Data), 1) == seq(vmInput.Arguments[1]) && warg(seq(out.OutputAccounts[a3].OutputTransfers[0].Data), 2) == seq(vmInput.Arguments[2])
 //@   ensures[C10,C01,C08] err == nil && !readFailed && senderSide && shardOf(a3) != selfShard ==> !dValNil(warg(seq(out.OutputAccounts[a3].OutputTransfers[0].Data), 3)) && dVal(warg(seq(out.OutputAccounts[a3].OutputTransfers[0].Data), 3)) == q && sameMeta(warg(seq(out.OutputAccounts[a3].OutputTransfers[0].Data), 3), old0)
+//@   ensures[C10,C01] err == nil && senderSide && shardOf(a3) != selfShard ==> wireOK(seq(out.OutputAccounts[a3].OutputTransfers[0].Data))
+//@   ensures err == nil ==> len(vmInput.Arguments) >= 4
+//@   ensures old(readFailed) ==> readFailed
+//@   ensures faultFree ==> readFailed == old(readFailed)
 //@   ensures[C16,C10] err == nil && !readFailed && senderSide && shardOf(a3) != selfShard ==> warg(seq(out.OutputAccounts[a3].OutputTransfers[0].Data), 3) == reEnc(old0, q)
 //@   ensures[C16] err == nil && !readFailed && senderSide && shardOf(a3) != selfShard ==> vmInput.GasProvided - (out.GasRemaining + fwdGas(out, a3)) == e.funcGasCost + e.gasConfig.DataCopyPerByte * len(reEnc(old0, q))
 //@   ensures[C16] err == nil && senderSide ==> vmInput.GasProvided - (out.GasRemaining + fwdGas(out, a3)) >= e.funcGasCost
@@ -667,6 +671,54 @@ func lemmaESDTTransferDelivered(e *esdtTransfer, snd, dst vmcommon.UserAccountHa
 //@   ensures[C15] err == nil ==> WFvalues(St)
 //@   ensures[C10,C13] vmInput != nil ==> len(vmInput.Arguments) == old(len(vmInput.Arguments)) && forall(j, int, 0 <= j && j < len(vmInput.Arguments) ==> seq(vmInput.Arguments[j]) == old(seq(vmInput.Arguments[j]))) && seq(vmInput.CallerAddr) == old(seq(vmInput.CallerAddr)) && seq(vmInput.RecipientAddr) == old(seq(vmInput.RecipientAddr))
 //@   modifies St, failed, readFailed, loadFailed
+
+// lemmaESDTNFTTransferDelivered (C01, C08, C10): the sender side of ESDTNFTTransfer towards another shard composed with
+// the destination side through the emitted message, parsed by the real call-arguments parser. In a run without read
+// faults: the message parses and names this function; the payload it carries satisfies what the destination side
+// requires of a protocol-generated message (so that requirement is discharged here, not assumed); when both
+// executions succeed the destination is credited exactly what the sender was debited, under the same key, with the
+// sender's metadata, and nothing else changed; a refusal without a dependency fault has a listed world-state
+// reason. Outside the F8b class (the entry read under the requested nonce carries that nonce).
+func lemmaESDTNFTTransferDelivered(e *esdtNFTTransfer, snd, dst vmcommon.UserAccountHandler, in, in2 *vmcommon.ContractCallInput) (emitted bool, fn string, err1, perr, err2 error) {
+	out, err1 := e.ProcessBuiltinFunction(snd, nil, in)
+	if err1 != nil {
+		return false, "", err1, nil, nil
+	}
+	oa, ok := out.OutputAccounts[string(in.Arguments[3])]
+	if !ok {
+		return false, "", nil, nil, nil
+	}
+	fn, args, perr := parsers.NewCallArgsParser().ParseData(string(oa.OutputTransfers[0].Data))
+	if perr != nil {
+		return true, fn, nil, perr, nil
+	}
+	in2.Arguments = args
+	_, err2 = e.ProcessBuiltinFunction(nil, dst, in2)
+	return true, fn, nil, nil, err2
+}
+
+//@ func lemmaESDTNFTTransferDelivered
+//@   view tok = seq(in.Arguments[0])
+//@   view n = beval(seq(in.Arguments[1])) % 18446744073709551616
+//@   view q = beval(seq(in.Arguments[2]))
+//@   view a = seq(in.CallerAddr)
+//@   view b = seq(in.Arguments[3])
+//@   view Kn = Knft(seq(in.Arguments[0]), beval(seq(in.Arguments[1])) % 18446744073709551616)
+//@   view old0 = St[seq(in.CallerAddr)][Knft(seq(in.Arguments[0]), beval(seq(in.Arguments[1])) % 18446744073709551616)]
+//@   requires e != nil && locksFree() && !isNil(e.marshalizer) && !isNil(e.pauseHandler) && !isNil(e.payableHandler) && !isNil(e.shardCoordinator) && !isNil(e.accounts) && esdtPrefix(e.keyPrefix)
+//@   requires costBound(e.funcGasCost) && costBound(e.gasConfig.DataCopyPerByte)
+//@   requires in != nil && in2 != nil && in != in2 && !isNil(snd) && !isNil(dst) && sndIsCaller(snd, in) && dstIsRecipient(dst, in2) && WFvalues(St) && argBounds(in)
+//@   requires seq(in.CallerAddr) == seq(in.RecipientAddr) && seq(in2.CallerAddr) == seq(in.CallerAddr) && in2.CallValue != nil && bigval(in2.CallValue) == 0
+//@   requires len(in.Arguments) >= 4 && seq(in2.RecipientAddr) == seq(in.Arguments[3]) && shardOf(seq(in.Arguments[3])) != selfShard && a != SYS()
+//@   requires faultFree && !readFailed
+//@   at +13 assert len(args) == len(in.Arguments) && seq(args[0]) == seq(in.Arguments[0]) && seq(args[1]) == seq(in.Arguments[1]) && seq(args[2]) == seq(in.Arguments[2])
+//@   at +13 assert !readFailed && !dValNil(seq(args[3])) && dVal(seq(args[3])) == q && sameMeta(seq(args[3]), old(old0))
+//@   ensures[C01,C10] emitted ==> perr == nil && seq(fn) == "ESDTNFTTransfer"
+//@   ensures[C01] emitted && err2 == nil && dMNonce(old(old0)) == n ==> val(St, a, Kn) == val(old(St), a, Kn) - q && val(St, b, Kn) == val(old(St), b, Kn) + q
+//@   ensures[C01] emitted && err2 == nil && dMNonce(old(old0)) == n ==> onlyChanged2(St, old(St), a, Kn, b, Kn)
+//@   ensures[C08] emitted && err2 == nil && dMNonce(old(old0)) == n && val(old(St), b, Kn) + q > 0 ==> sameMeta(St[b][Kn], old(old0))
+//@   ensures[C01,C10] emitted && err2 != nil && !failed && dMNonce(old(old0)) == n ==> (mustVerify(in2, 4) && !payable(b)) || (!in2.ReturnCallAfterError && b != ESDTSC() && (frozen(old(St), b, Kn) || frozenProps(dProps(old(old0))) || paused(old(St), Kesdt(tok)) || paused(old(St), Kn))) || (len(old(St)[b][Kn]) != 0 && dHasMeta(old(St)[b][Kn]) && dMHash(old(St)[b][Kn]) != dMHash(old(old0)))
+//@   modifies St, failed, readFailed, loadFailed, in2.Arguments, new([]string), new([][]byte)
 
 // ---- MultiESDTNFTTransfer ---------------------------------------------------------------------------------------------------------------
 // Per-item contracts (one listed token): addNFTToDestination credits, transferOneTokenOnSenderShard
